@@ -267,7 +267,7 @@ func runC09(c c09Case) vh.Result {
 var c09 = vh.Define(&vh.Def[c09Case]{
 	Property: "C09", Name: "smcount",
 	Rule: "inbound histories over {message, presence, iq result/error/get/set, <r/>, <a/>, stream features, <enabled/>, SASL success}, 0-60 elements per connection, optionally written in chunks of generated sizes, on 1-4 successive connections of one client (the peer drops the connection and the client resumes), in a quarter of the cases preceded by 1-2 connections of the same client on which the server did not offer stream management (the stream-managed session must then start at zero); a real Client with stream management negotiated against the scripted peer; oracle = wire truth kept by the peer: h of every <a/> written by the client equals the number of stanzas the peer had sent before the <r/>, h of every <resume/> equals the total on the session and previd is the id from <enabled/>; non-trivial = the history has a stanza, an <r/> after a non-stanza element, or a resumption",
-	Quick: 2000, Thorough: 60000, Journal: true,
+	Quick: 2000, Thorough: 24000, Journal: true,
 	Gen: genC09, Run: runC09,
 })
 
